@@ -293,6 +293,7 @@ impl World {
     }
 
     pub fn poll_caller(&mut self, c: usize) -> PollResult {
+        self.begin_step();
         let now = self.now_ms();
         let step = self.step;
         self.poll_seq += 1;
@@ -338,6 +339,7 @@ impl World {
     }
 
     pub fn drop_caller(&mut self, c: usize) {
+        self.begin_step();
         let now = self.now_ms();
         let cl = &mut self.callers[c];
         assert!(cl.is_live(), "drop of non-live caller {c}");
@@ -351,6 +353,7 @@ impl World {
 
     /// Open the gate of inner call k.
     pub fn complete(&mut self, k: usize, out: Out) {
+        self.begin_step();
         let w = self.inner.lock().unwrap().open_gate(k, out);
         if let Some(w) = w {
             w.wake();
@@ -385,6 +388,7 @@ impl World {
     /// Advance virtual time to the next event: the earliest timer that wakes a caller, or
     /// the next grid point.
     pub fn tick(&mut self) -> TickEnd {
+        self.begin_step();
         let now = self.now_ms();
         let next_grid = (now / self.grid_ms + 1) * self.grid_ms;
         let deadline = self.origin + Duration::from_millis(next_grid);
@@ -409,6 +413,7 @@ impl World {
 
     /// Advance virtual time by exactly `ms` (all timers inside fire in order).
     pub fn advance(&mut self, ms: u64) {
+        self.begin_step();
         let rt = self.holder.rt.as_ref().unwrap();
         rt.block_on(async {
             tokio::time::sleep(Duration::from_millis(ms)).await;
